@@ -42,7 +42,7 @@ def gen(tier, seed):
         n = npts_of(U, p)
         nodes = node_set(U, p)
         if tier == "quick":
-            nodes = nodes[:-2][::2] + nodes[-3:]          # every other inside node, umax, two outside
+            nodes = nodes[:-4][::2] + nodes[-5:]          # every other inside node, umax, four outside
         for rational in (False, True):
             if tier == "quick" and rational and v["kind"] == "uniform":
                 continue
@@ -51,16 +51,46 @@ def gen(tier, seed):
                 us = nodes if "s" in ix and ix["s"] == [None, None, None] else rnd.sample(nodes, 3)
                 for u in us:
                     qs.append({"ix": ix, "j": j, "u": fs(u)})
-            cases.append({"U": fsl(U), "p": p, "kind": v["kind"], "mults": v["mults"],
+            # some Function objects reach this knot vector by an IN-PLACE change of their KnotVector (one knot inserted,
+            # or the degree raised) after they have already been evaluated: answers must follow the current vector
+            pre = None
+            if not rational:
+                inner = sorted(set(U[p + 1:len(U) - p - 1]))
+                if inner and rnd.random() < 0.4:
+                    pre = {"insert": fsl([rnd.choice(inner)])}
+                elif p >= 1 and all(m >= 2 for m in v["mults"]) and rnd.random() < 0.5:
+                    pre = {"elevate": 1}
+            cases.append({"U": fsl(U), "p": p, "kind": v["kind"], "mults": v["mults"], "pre": pre,
                           "W": fsl(rand_weights(rnd, n)) if rational else None, "qs": qs,
-                          "seqnodes": fsl(rnd.sample(nodes[:-2], len(nodes) - 2))})
+                          "seqnodes": fsl(rnd.sample(nodes[:-4], len(nodes) - 4))})
     return cases
 
 
 def impl(case):
     from compmec.nurbs import Function
     from implib import capture, num, nums, out_nums, out_num
-    f = Function(nums(case["U"]))
+    U = nums(case["U"])
+    pre = case.get("pre")
+    if pre and "insert" in pre:
+        x = nums(pre["insert"])[0]
+        U0 = list(U)
+        U0.remove(x)
+        f = Function(U0)
+        for j in range(int(f.degree) + 1):
+            f[:, j](U0[0]), f[0, j](x)
+        f.knotvector.insert([x])                       # in place
+    elif pre and "elevate" in pre:
+        from compmec.nurbs import KnotVector
+        kv0 = KnotVector(U)
+        kv0.degree -= 1
+        f = Function(kv0)
+        for j in range(int(f.degree) + 1):
+            f[:, j](U[0])
+        f.knotvector.degree += 1                       # in place
+    else:
+        f = Function(U)
+    if list(f.knotvector) != U:
+        raise RuntimeError("harness: premutation did not reach the requested vector")
     if case["W"] is not None:
         f.weights = nums(case["W"])
     outs = []
@@ -111,7 +141,8 @@ def emit(case, out):
 
 def describe(case):
     return {"degree": case["p"], "kind": case["kind"], "n_interior": len(case["mults"]),
-            "max_mult": max(case["mults"], default=0), "rational": case["W"] is not None}
+            "max_mult": max(case["mults"], default=0), "rational": case["W"] is not None,
+            "reached_in_place": "no" if not case.get("pre") else list(case["pre"])[0]}
 
 
 def nontrivial(case):
